@@ -4,7 +4,7 @@ from ..gen.checks import GenCheck, COMMON_ASSUMPTIONS
 
 ENGINE = "dgen+refsem"
 TECHNIQUE = "runtime monitoring: random well-formed designs emitted as real Transactron objects, simulated under hostile input valuations; per-cycle oracle = independent reference semantics over sampled run/data/witness signals"
-CHECK = GenCheck("C08", ("C08:",), {"max_conflicts": 4, "max_sb": 3, "p_triangle": 0.6, "p_double_conflict": 0.5}, scheds=("eager",), nontrivial_counter="prioritised_pairs_both_enabled_cycles")
+CHECK = GenCheck("C08", ("C08:",), {"max_conflicts": 4, "max_sb": 3, "p_triangle": 0.6, "p_double_conflict": 0.5, "p_lifted_priority": 0.5}, scheds=("eager",), nontrivial_counter="prioritised_pairs_both_enabled_cycles")
 shards, run_shard = CHECK.shards, CHECK.run_shard
 ASSUMPTIONS = COMMON_ASSUMPTIONS
 RULE = ("[forced layout classes: priority triangle; double conflict (a pair conflicting implicitly through a shared exclusive method AND by a prioritised add_conflict whose priority disagrees with the definition order, plus a third transaction attached to the component only by schedule_before); second clause: for every schedule_before pair without a conflict, a fully enabled side that stays idle has a running conflicting transaction] random well-formed designs with up to 4 conflicts (LEFT/RIGHT/UNDEFINED, between transactions or lifted from methods) combined with implicit conflicts and schedule_before chains; oracle: when both sides of a prioritised conflict are fully enabled, the lower side runs only if the higher side does not run and some other transaction conflicting with the higher side runs; non-trivial design = some cycle with both sides enabled; distinct = design shape signature")
